@@ -156,6 +156,12 @@ RULES = [
     (r'lib\.rs', r'impl G[12]::(?!from_|to_).*|impl Group for G[12].*|impl (Add|Sub|Neg|Mul) .*G[12].*', 'C04 C05 C15 C16'),
     (r'lib\.rs', r'impl Gt\b.*|impl Mul < Gt >.*', 'C11'),
     (r'lib\.rs', r'impl Group for G[12]::normalize', 'C01 C02 C03'),
+    # any other trait impl on a public type (a hand-written `PartialEq`, `Clone`, `Default`, `Hash`, ... replacing a derive)
+    (r'lib\.rs', r'impl .* for (G[12]|AffineG[12])::.*', 'C04 C05 C10 C15 C16'),
+    (r'lib\.rs', r'impl .* for Gt::.*', 'C11'),
+    (r'lib\.rs', r'impl .* for Fq2::.*', 'C12 C14'),
+    (r'lib\.rs', r'impl .* for F[rq]::.*', 'C06 C07 C13'),
+    (r'groups\.rs', r'impl .* for (G|AffineG) < P >::.*', 'C04 C15 C16'),
     (r'lib\.rs', r'impl AffineG[12]\b.*|impl From < AffineG[12] >.*', 'C09 C15'),
     (r'lib\.rs', r'impl From < G2 > for G2Prepared.*|impl G2Prepared.*|::pairing$|::fast_pairing$', 'C01 C02 C03 C16'),
 ]
